@@ -19,9 +19,10 @@ FLOAT_POOL = [0.0, 1.0, 0.5, 2.0, 0.25, 3.0, 1.5, -1.0, -0.5, 0.75, 4.0, 1e-3, 1
 
 
 class Gen(object):
-    def __init__(self, rng, module):
+    def __init__(self, rng, module, model="R"):
         self.rng = rng
         self.module = module
+        self.model = model
         self.token = 0
 
     def value(self, ty, depth=0):
@@ -30,7 +31,9 @@ class Gen(object):
             r = rng.random()
             if r < 0.6:
                 return rng.choice(FLOAT_POOL)
-            if r < 0.9:
+            if r < 0.9 or self.model != "F":
+                # model R contracts are statements about reals: natively they are meaningful for well-conditioned
+                # magnitudes only, so no extreme floats are generated for them
                 return round(rng.uniform(-4, 4), 3)
             return rng.choice([1e-20, -1e-20, 1e10, 2.0 ** 52, math.nextafter(1.0, 0.0)])
         if k == "int":
@@ -152,7 +155,7 @@ def fuzz_main(case):
         elif a.annotation is not None:
             ptypes[a.arg] = parse_type(_ast.unparse(a.annotation))
     rng = random.Random(case.get("seed", 0))
-    gen = Gen(rng, module)
+    gen = Gen(rng, module, c.model)
     custom_gen = None
     if c.native_gen:
         ns = {"module": module}
@@ -239,7 +242,7 @@ def fuzz_main(case):
             env["result"] = result
             violated = []
             if raised is not None and raised in c.may_raise:
-                for cl in c.may_raise[raised]:
+                for cl in c.may_raise[raised] + c.native_may_raise.get(raised, []):
                     if native_eval.eval_clause(cl, env, old_env, c.model, pre_ids, natives, tol=c.native_tol) is False:
                         violated.append("raised-%s:%s" % (raised, cl))
             elif raised is not None:
@@ -253,7 +256,7 @@ def fuzz_main(case):
                 for exc, cond in c.raises.items():
                     if native_eval.eval_clause(cond, old_env, None, c.model, None, natives, tol=c.native_tol) is True:
                         violated.append("raises:%s-whenever:%s" % (exc, cond))
-                for e in c.ensures:
+                for e in c.ensures + c.native_ensures:
                     v = native_eval.eval_clause(e, env, old_env, c.model, pre_ids, natives, tol=c.native_tol)
                     stats["evaluated_clauses"] += 1
                     if v is False:
@@ -295,7 +298,7 @@ def fuzz_c(c, case, natives):
     loader_.exec_module(mod)
     fn = getattr(mod.lib, fname)
     rng = random.Random(case.get("seed", 0))
-    gen = Gen(rng, None)
+    gen = Gen(rng, None, c.model)
     stats = {"generated": 0, "accepted": 0, "evaluated_clauses": 0}
     deadline = time.time() + case.get("seconds", 10)
     found = None
